@@ -310,6 +310,29 @@ theorem C02_emitted_module_executes (els : List Elem) (m : PyModule) (h : emitMo
     rw [this]
     exact C02_module_executes _ _ hchain
 
+open Statham.PyEval in
+/-- **every class the executed module defines is one of the parsed classes, bound under its own name** — so the executed class
+    and the parsed class are the same element: equal, and validating identically, in every environment -/
+theorem C02_executed_classes_are_parsed (els : List Elem) (m : PyModule) (h : emitModule els = .ok m) (ok : ModuleOK els) :
+    ∃ defs : List (String × Elem), execClasses (fun _ => none) m.classes = some defs ∧
+      ∀ p ∈ defs, p.2 ∈ objectClasses els ∧ objName p.2.cls = p.1 := by
+  obtain ⟨order, ho, hc⟩ := classes_follow_order els m h
+  have hchain := chainOK_of_module els ok order ho order [] (fun _ => none) (by simp) (by intro d _ hd; cases hd)
+  have hm : m.classes = (order.filterMap (lookupClass els)).map classDef := by rw [hc, List.map_filterMap]; rfl
+  refine ⟨_, by rw [hm]; exact C02_module_executes _ _ hchain, ?_⟩
+  intro p hp
+  obtain ⟨c, hcmem, rfl⟩ := List.mem_map.mp hp
+  obtain ⟨n, _, hl⟩ := List.mem_filterMap.mp hcmem
+  exact ⟨(lookupClass_spec hl).1, rfl⟩
+
+open Statham.PyEval in
+/-- **Consequently**: whatever class the executed module binds under the name of a parsed class *is* that parsed class (names
+    are unique in a well-formed module), so it accepts a value exactly when the parsed class does — and for a schema meeting
+    the `Good` conditions of C01, exactly when Draft 6 says the value is valid (`C01_partial`). -/
+theorem C02_executed_class_is_parsed (els : List Elem) (ok : ModuleOK els) (c root : Elem)
+    (hc : c ∈ objectClasses els) (hr : root ∈ objectClasses els) (hn : objName c.cls = objName root.cls) : c = root :=
+  ok.unique c hc root hr hn
+
 namespace Sample
 open Statham.PyEval
 
